@@ -362,3 +362,17 @@ func RunBuilt(schema z.ZogSchema, c *Case, rec *Recorder) *Result {
 }
 
 func NoteInput(v V, ext *Ext) { noteInputDisplays(v, ext) }
+
+
+// RunBuiltData executes a Parse case on an already built schema with explicit input data
+// (a data-provider factory such as zhttp.Request / zjson.Decode).
+func RunBuiltData(schema z.ZogSchema, c *Case, rec *Recorder, data any) *Result {
+	return runOn(schema, c, rec, data)
+}
+
+func SentinelZero(n *Node) D {
+	if n.Kind == "ptr" {
+		return ZeroD(n)
+	}
+	return sentinelZero(n)
+}
